@@ -14,6 +14,7 @@ import (
 	"sync"
 	"testing"
 	"testing/synctest"
+	"time"
 
 	"github.com/gokrazy/rsync/rsyncclient"
 	"github.com/gokrazy/rsync/rsynccmd"
@@ -111,6 +112,7 @@ type SessionResult struct {
 	ServerErr error
 	ClientDone, ServerDone bool
 	Panic     string // recovered panic of the client party (library call) if any
+	Harness   string // harness trouble (bubble panic): the run is inconclusive, never a violation
 	Stats     kernel.Stats
 	Hash      uint64
 	Shape     uint64
@@ -193,10 +195,14 @@ func RunSyncSession(t *testing.T, sc *SyncScenario, lay Layout, hooks SessionHoo
 // the daemon arrangements (fault-planned fs.FS modules, several modules).
 func RunSyncSessionWithModules(t *testing.T, sc *SyncScenario, lay Layout, hooks SessionHooks, mods []rsyncd.Module) (res *SessionResult) {
 	res = &SessionResult{}
+	if sc.Arr == "A4" {
+		runA4(sc, lay, res)
+		return res
+	}
 	defer func() {
 		if r := recover(); r != nil {
 			// synctest's end-of-bubble deadlock panic or a harness bug
-			res.Panic = fmt.Sprintf("harness/bubble panic: %v", r)
+			res.Harness = fmt.Sprintf("harness/bubble panic: %v", r)
 			res.Outcome = kernel.Deadlock
 		}
 	}()
@@ -204,6 +210,47 @@ func RunSyncSessionWithModules(t *testing.T, sc *SyncScenario, lay Layout, hooks
 		runSyncInBubble(sc, lay, hooks, res, mods)
 	})
 	return res
+}
+
+// runA4 runs the CLI local copy. Its transport is an io.Pipe pair created
+// inside the code under test, so the simulator does not schedule it; it runs
+// outside any bubble under a wall-clock watchdog (a hung copy blocks on a
+// sync.Mutex inside io.Pipe, which synctest cannot see as quiescent). A hang
+// is reported as a deadlock; its goroutines are abandoned.
+func runA4(sc *SyncScenario, lay Layout, res *SessionResult) {
+	cErr, cOut := &lockedBuf{max: 1 << 20}, &lockedBuf{max: 1 << 20}
+	args := append([]string{}, sc.Opts...)
+	for _, a := range sc.Sources {
+		args = append(args, srcArgPath(lay.Src, a))
+	}
+	args = append(args, lay.Dst)
+	cmd := rsynccmd.Command("rsync", args...)
+	cmd.Stdout, cmd.Stderr, cmd.DontRestrict = cOut, cErr, true
+	type out struct {
+		err   error
+		panic string
+	}
+	ch := make(chan out, 1)
+	go func() {
+		var o out
+		defer func() {
+			if r := recover(); r != nil {
+				o.panic = fmt.Sprintf("cli: panic: %v\n%s", r, debug.Stack())
+			}
+			ch <- o
+		}()
+		_, o.err = cmd.Run(context.Background())
+	}()
+	limit := 45 * time.Second
+	select {
+	case o := <-ch:
+		res.Outcome = kernel.Finished
+		res.ClientDone, res.ClientErr, res.Panic = true, o.err, o.panic
+	case <-time.After(limit):
+		res.Outcome = kernel.Deadlock
+		res.Pending = fmt.Sprintf("local copy (client and in-process server over io.Pipe) did not return within %v of wall-clock time", limit)
+	}
+	res.ClientStderr, res.ClientStdout = cErr.String(), cOut.String()
 }
 
 func applyFaults(faults []Fault, cEnd, sEnd *kernel.End, client, server *kernel.Party) {
@@ -284,24 +331,6 @@ func runSyncInBubble(sc *SyncScenario, lay Layout, hooks SessionHooks, res *Sess
 			}
 			res.ServerDone = true
 		}
-	}
-
-	if sc.Arr == "A4" {
-		// CLI local copy: io.Pipe inside the code under test, not scheduled.
-		args := append([]string{}, sc.Opts...)
-		for _, a := range sc.Sources {
-			args = append(args, srcArgPath(lay.Src, a))
-		}
-		args = append(args, lay.Dst)
-		cmd := rsynccmd.Command("rsync", args...)
-		cmd.Stdout, cmd.Stderr, cmd.DontRestrict = cOut, cErr, true
-		clientParty = sim.Go("cli", guard("cli", &clientPanic, func() error {
-			_, err := cmd.Run(ctx)
-			return err
-		}))
-		res.Outcome = sim.Run()
-		finish()
-		return
 	}
 
 	capCS, capSC := sc.Tr.CapCS, sc.Tr.CapSC
